@@ -128,3 +128,159 @@ pub(crate) fn driver_update_sent(local_hold: u64, remote_hold: u16) -> Result<((
         Ok((armed(&session.holdtime_futures), armed(&session.keepalive_futures)))
     })
 }
+
+/// Message kinds pushed through the real receive path (`run_select` on a socket) of a session
+/// whose arbiter is Established with negotiated hold time `NEG_HOLD`.
+pub(crate) const RX_KINDS: &[(&str, bool)] = &[
+    // (kind, the hold timer must be re-armed)
+    ("keepalive", true),
+    ("update/reach", true),
+    ("update/withdraw", true),
+    ("update/end-of-rib", true),
+    ("update/reach-with-own-as-in-path", true),
+    ("update/attributes-only", true),
+    ("update/missing-mandatory-attribute", true),
+    ("update/malformed-attribute-no-nlri", true),
+    ("update/two-in-one-read", true),
+    ("route-refresh", false),
+];
+pub(crate) const NEG_HOLD: u64 = 30;
+
+fn frame(typ: u8, body: &[u8]) -> Vec<u8> {
+    let mut v = vec![0xffu8; 16];
+    v.extend_from_slice(&((19 + body.len()) as u16).to_be_bytes());
+    v.push(typ);
+    v.extend_from_slice(body);
+    v
+}
+
+fn update_frame(withdrawn: &[u8], attrs: &[u8], nlri: &[u8]) -> Vec<u8> {
+    let mut b = Vec::new();
+    b.extend_from_slice(&(withdrawn.len() as u16).to_be_bytes());
+    b.extend_from_slice(withdrawn);
+    b.extend_from_slice(&(attrs.len() as u16).to_be_bytes());
+    b.extend_from_slice(attrs);
+    b.extend_from_slice(nlri);
+    frame(2, &b)
+}
+
+fn rx_bytes(kind: &str, own_as: u16) -> Vec<u8> {
+    let origin = [0x40u8, 1, 1, 0];
+    let nh = [0x40u8, 3, 4, 192, 0, 2, 1];
+    let path = |asn: u16| -> Vec<u8> {
+        let a = asn.to_be_bytes();
+        // AS4 session: 4-octet AS numbers
+        vec![0x40, 2, 6, 2, 1, 0, 0, a[0], a[1]]
+    };
+    let good: Vec<u8> = [origin.to_vec(), path(65002), nh.to_vec()].concat();
+    let pfx = [24u8, 10, 99, 1];
+    match kind {
+        "keepalive" => frame(4, &[]),
+        "update/reach" => update_frame(&[], &good, &pfx),
+        "update/withdraw" => update_frame(&pfx, &[], &[]),
+        "update/end-of-rib" => update_frame(&[], &[], &[]),
+        "update/reach-with-own-as-in-path" => update_frame(&[], &[origin.to_vec(), path(own_as), nh.to_vec()].concat(), &pfx),
+        "update/attributes-only" => update_frame(&[], &good, &[]),
+        "update/missing-mandatory-attribute" => update_frame(&[], &[path(65002), nh.to_vec()].concat(), &pfx),
+        // ORIGIN with an undefined value and nothing announced or withdrawn
+        "update/malformed-attribute-no-nlri" => update_frame(&[], &[vec![0x40u8, 1, 1, 9], path(65002), nh.to_vec()].concat(), &[]),
+        "update/two-in-one-read" => [update_frame(&[], &[origin.to_vec(), path(own_as), nh.to_vec()].concat(), &pfx), update_frame(&[], &good, &[])].concat(),
+        "route-refresh" => frame(5, &[0, 1, 0, 1]),
+        _ => Vec::new(),
+    }
+}
+
+pub(crate) struct RxArmed {
+    pub hold: (usize, u64),
+    pub keepalive: (usize, u64),
+    pub terminated: bool,
+    pub frames_counted: u64,
+}
+
+/// The receive side of the binding: the bytes of one message of `kind` arrive on the socket of an
+/// Established session (negotiated hold time NEG_HOLD, both timers pre-armed with 777 / 555 so
+/// that a re-arm is observable), the REAL `run_select` reads and handles them, and the armed
+/// deadlines are read back.
+pub(crate) fn driver_message_received(kind: &str) -> Result<RxArmed, String> {
+    let rt = runtime();
+    rt.block_on(async {
+        let addr = IpAddr::V4(Ipv4Addr::new(127, 0, 8, 202));
+        let d = Daemon::new(1);
+        let caps = vec![packet::Capability::MultiProtocol(Family::IPV4), packet::Capability::FourOctetAsNumber(65001)];
+        let fsm = crate::fsm::PeerFsm::new(u32::from(Ipv4Addr::new(1, 0, 0, 1)), 65001, caps.clone(), 90, 0, FnvHashMap::default());
+        let conn_arbiter = Arc::new(std::sync::Mutex::new(ConnArbiter::new(fsm)));
+        let ctx = Arc::new(std::sync::Mutex::new(PeerContext {
+            conn_arbiter: conn_arbiter.clone(),
+            active_connect_cancel_tx: None,
+            active_connect_join_handle: None,
+            gr_state: crate::gr::GrState::new(),
+            gr_restart_timer: None,
+            llgr_family_timers: FnvHashMap::default(),
+            rtc_state: crate::rtc::RtcState::new(),
+            rtc_eor_timer: None,
+        }));
+        let mut session = PeerSession::new_for_test(addr, ctx, d.tables.clone());
+        session.conn_arbiter = conn_arbiter.clone();
+        session.context.lock().unwrap().conn_arbiter = conn_arbiter.clone();
+        let role = session.role;
+        {
+            let mut arb = conn_arbiter.lock().unwrap();
+            arb.process(role, crate::fsm::Input::Connected(false));
+            let outs = arb.process(
+                role,
+                crate::fsm::Input::MessageReceived(bgp::Message::Open(bgp::Open { as_number: 65002, holdtime: HoldTime::new(NEG_HOLD as u16).ok_or("hold time")?, router_id: 20, capability: vec![packet::Capability::MultiProtocol(Family::IPV4), packet::Capability::FourOctetAsNumber(65002)] })),
+            );
+            for o in outs {
+                if let crate::fsm::PeerFsmOutput::Connection(_, crate::fsm::Output::SessionNegotiated(c)) = o {
+                    session.codec = c;
+                }
+            }
+            arb.process(role, crate::fsm::Input::MessageReceived(bgp::Message::Keepalive));
+            if arb.state(role) != crate::fsm::State::Established {
+                return Err("arbiter did not reach Established".to_string());
+            }
+        }
+        session.source.insert(
+            Family::IPV4,
+            Arc::new(table::Source::new(addr, IpAddr::V4(Ipv4Addr::new(127, 0, 0, 1)), 65002, 65001, Ipv4Addr::new(0, 0, 0, 20), table::PeerRole::Ebgp)),
+        );
+        let la = SocketAddr::new(IpAddr::V4(Ipv4Addr::new(127, 0, 0, 1)), 179);
+        let ra = SocketAddr::new(addr, 40000);
+        let pre = vec![
+            crate::fsm::PeerFsmOutput::Connection(role, crate::fsm::Output::SetHoldTimer(777)),
+            crate::fsm::PeerFsmOutput::Connection(role, crate::fsm::Output::SetKeepaliveTimer(555)),
+        ];
+        let _ = session.apply_outputs(pre, la, ra).await;
+        let (mut client, mut server) = socket_pair(addr).await?;
+        let bytes = rx_bytes(kind, 65001);
+        let want_frames = if kind == "update/two-in-one-read" { 2 } else { 1 };
+        {
+            use tokio::io::AsyncWriteExt;
+            client.write_all(&bytes).await.map_err(|e| format!("write: {e}"))?;
+        }
+        let mut rxbuf = bytes::BytesMut::with_capacity(1 << 17);
+        let mut close_rx: CloseRxFuture = None.into();
+        let mut terminated = false;
+        let counted = |s: &PeerSession| -> u64 {
+            let c = &*s.counter_rx;
+            c.total.load(Ordering::Relaxed)
+        };
+        let before = counted(&session);
+        // run_select handles one ready event per call: repeat until the frames have been counted
+        for _ in 0..50 {
+            if counted(&session) >= before + want_frames {
+                break;
+            }
+            match tokio::time::timeout(std::time::Duration::from_secs(5), session.run_select(&d.global, &mut server, &mut rxbuf, ra, la, &mut close_rx)).await {
+                Ok(Step::Continue) => {}
+                Ok(_) => {
+                    terminated = true;
+                    break;
+                }
+                Err(_) => return Err(format!("run_select did not return within 5 s for {kind}")),
+            }
+        }
+        let frames_counted = counted(&session) - before;
+        Ok(RxArmed { hold: armed(&session.holdtime_futures), keepalive: armed(&session.keepalive_futures), terminated, frames_counted })
+    })
+}
